@@ -452,7 +452,8 @@ def c13_d(ctx):
 
     # weighted variance
     wv = [f for f in um.functions.values() if f.params[:2] == ['x', 'weights'] and
-          any(contains(ctx.ex(f).term(r.value), 'np.average(*_)') for r in returns(f))]
+          any(ctx.ex(f).term(r.value)[0] == 'binop' and ctx.ex(f).term(r.value)[1] == '/' and
+              contains(ctx.ex(f).term(r.value), 'np.sum(_)') for r in returns(f))]
     if len(wv) != 1:
         raise AnchorMissing('weighted variance function')
 
